@@ -140,3 +140,11 @@ def query(prop, lines, timeout=3000):
     if len(out) != len(lines):
         raise InfraError(f"model driver answered {len(out)} lines for {len(lines)} requests")
     return out
+
+
+def leanchecker(prop, timeout=3000):
+    """thorough tier: independent re-check of the compiled Props module (and what it imports) by leanchecker"""
+    p = subprocess.run(["lake", "env", "leanchecker", f"CohdlVerif.Props.{prop}"], cwd=LEAN, capture_output=True, text=True, timeout=timeout)
+    if p.returncode != 0:
+        raise InfraError("leanchecker rejected CohdlVerif.Props." + prop + ":\n" + (p.stdout + p.stderr)[-2000:])
+    return True
